@@ -125,6 +125,30 @@ struct Registry {
         return n;
     }
 
+    // Live instrumented objects that lie inside the arena but outside the object currently placed in their slot: an owner
+    // constructed (wrote) an element outside its own storage. They are forgotten once counted.
+    auto strays_in_arena() -> size_t
+    {
+        size_t n = 0;
+        for (auto it = live.begin(); it != live.end();) {
+            auto const* p  = reinterpret_cast<unsigned char const*>(it->first);
+            long const rel = arena_rel(p);
+            bool stray     = false;
+            if (rel >= 0) {
+                int const slot = static_cast<int>(static_cast<size_t>(rel) / kSlotBytes);
+                auto const* lo = slot_obj(slot);
+                stray          = g_slotObj[slot] == 0 || p < lo || p >= lo + g_slotObj[slot];
+            }
+            if (stray) {
+                ++n;
+                it = live.erase(it);
+            } else {
+                ++it;
+            }
+        }
+        return n;
+    }
+
     // objects the harness itself holds outside the arena (call arguments) at the moment a library call starts
     std::vector<uintptr_t> harnessHeld;
 
